@@ -12,8 +12,8 @@ LEVEL_TEXT = {
 
 LEVEL_TEXT.update({
     "C02": "Bounded model checking: one UNLOCK or re-entrant LOCK with symbolic LockId choice/Rcount/flags from every state of the bounded shape; ownership, error codes and depth arithmetic asserted against snapshots of the real holder list and the reply log.",
-    "C03": "Bounded model checking: reply accounting (exactly one terminal reply per request, at most one EXPRIED, right connection, no double free of command objects) after one arbitrary step (LOCK/UNLOCK/clock tick through the real sweeps) from every state of the bounded shape.",
-    "C04": "Bounded model checking: after one arbitrary step from every state of the bounded shape, no admissible request is left at the head of the queue and no request overtook an earlier one of equal or higher priority.",
+    "C03": "Bounded model checking (C03_step, C03_relock): reply accounting (exactly one terminal reply per request, at most one EXPRIED, right connection, no double free of command objects; EXPRIED goes to the connection and RequestId that last set the terms when a second connection re-locks/updates) after one arbitrary step (LOCK/UNLOCK/clock tick through the real sweeps) from every state of the bounded shape.",
+    "C04": "Bounded model checking: after one arbitrary step from every state of the bounded shape, no admissible request is left at the head of the queue and no request overtook an earlier one of equal or higher priority (C04_step); wait queues of 3/140/150/260 entries crossing the inline->ring->priority-ring representations are drained hold by hold with exact grant order (C04_bigqueue).",
     "C17": "Bounded model checking: STATE counters and reply LCount/LRCount compared with a census of the real structures after one arbitrary step from every state of the bounded shape.",
 })
 
@@ -70,7 +70,7 @@ LEVEL_NOTE = {
     "C01": "Trusted: the symgo executor (validated per run by native replay of sampled path witnesses), z3. Schedules: single-threaded critical sections only (no interleaving of two requests inside LockDB.Lock is explored); time values drawn from classes {0,3}/{0,4}; millisecond flags and aof-timing flags fixed in these harnesses.",
     "C02": "Trusted: symgo (validated by native replay of sampled witnesses), z3. Single-threaded critical sections; holder list shapes <=3 (inline queue only); show/update flags excluded here (C06).",
     "C03": "Trusted: symgo, z3. In-memory protocol (MemWaiterServerProtocol) only: the socket write path and text-protocol lockWaiter hand-off are outside; require-ack flag excluded (C11); no interleaving of two threads.",
-    "C04": "Trusted: symgo, z3. Queues of <=2 entries (inline representation); ring/priority-ring migration beyond that is covered only by C20. Two recorded findings (known_findings.json).",
+    "C04": "Trusted: symgo, z3. Symbolic shapes have <=2 queued entries; the long queues of C04_bigqueue use concrete commands (one priority level plus one other). Two recorded findings (known_findings.json).",
     "C17": "Trusted: symgo, z3. One key, one shard; free collectors outside; the drain phase is checked only over the single step.",
     "C05": "Millisecond-flag timeouts (wall-clock wheel and its goroutines) and waits longer than 12 s in the simulation are outside; larger T are covered only by the symbolic deadline formula plus the long-table sweep exercised at T > 8. One shard, one key.",
     "C06": "Millisecond-flag expiries, updates that shorten a wheel entry (the 10 s clause) and follower deferral (C10) are outside. One shard, one key.",
